@@ -111,12 +111,13 @@ type vfWorld struct {
 	prelaunchSeen map[string]int
 	schedMsgs     map[int]*vfSched
 	fut           *vfFutWorld
+	instSpec      map[int]*vfSpec // actor instance id -> the spec it was created from
 	zombieNames   map[string]bool // actors (by name) whose restart hook failed at some point: they were zombies for a while
 	schedIdentity []string
 }
 
 func newVfWorld(opts ...vivid.ActorSystemOption) *vfWorld {
-	w := &vfWorld{inflight: map[string]*int32{}, refs: map[string]vivid.ActorRef{}, specs: map[string]*vfSpec{}, sent: map[int]*vfSent{}, decCalls: map[string]int{}, badInst: map[int]bool{}, prelaunchSeen: map[string]int{}, zombieNames: map[string]bool{}}
+	w := &vfWorld{inflight: map[string]*int32{}, refs: map[string]vivid.ActorRef{}, specs: map[string]*vfSpec{}, sent: map[int]*vfSent{}, decCalls: map[string]int{}, badInst: map[int]bool{}, prelaunchSeen: map[string]int{}, zombieNames: map[string]bool{}, instSpec: map[int]*vfSpec{}}
 	w.t0 = time.Now()
 	opts = append([]vivid.ActorSystemOption{vivid.WithActorSystemLogger(log.NewSilentLogger())}, opts...)
 	w.sys = NewSystem(opts...)
@@ -362,7 +363,11 @@ type vfActor struct {
 }
 
 func (w *vfWorld) newActor(spec *vfSpec) *vfActor {
-	return &vfActor{w: w, spec: spec, inst: int(w.nextInst.Add(1))}
+	a := &vfActor{w: w, spec: spec, inst: int(w.nextInst.Add(1))}
+	w.mu.Lock()
+	w.instSpec[a.inst] = spec
+	w.mu.Unlock()
+	return a
 }
 
 func (w *vfWorld) options(spec *vfSpec) []vivid.ActorOption {
@@ -821,7 +826,12 @@ func (w *vfWorld) oracleLifecycle() (v []vfViol) {
 	for k, s := range w.specs {
 		specs[k] = s
 	}
+	instSpecs := map[int]*vfSpec{}
+	for k, s := range w.instSpec {
+		instSpecs[k] = s
+	}
 	w.mu.Unlock()
+	_ = specs
 	for _, e := range log {
 		if e.Kind == "obs" && e.Msg == "restarted" {
 			restarted[e.Path]++
@@ -852,7 +862,8 @@ func (w *vfWorld) oracleLifecycle() (v []vfViol) {
 			if e.Beh != "base" {
 				v = append(v, vfViol{"c05-behaviour-not-reset", "restart", fmt.Sprintf("%s: OnLaunch of incarnation %d handled by behaviour %q (stack not reset)", e.Path, s.incs, e.Beh)})
 			}
-			if sp := specs[e.Path]; sp != nil && sp.Provider && s.incs > 1 && e.Inst == s.lastInst {
+			// the spec of the instance itself decides (a path can be re-spawned from a different spec in between)
+			if sp := instSpecs[e.Inst]; sp != nil && sp.Provider && s.incs > 1 && e.Inst == s.lastInst {
 				v = append(v, vfViol{"c05-provider-instance-reused", "restart", fmt.Sprintf("%s: incarnation %d still uses actor instance %d although a provider is configured", e.Path, s.incs, e.Inst)})
 			}
 			s.lastInst = e.Inst
